@@ -133,7 +133,7 @@ def summarise(ev):
         return {k: sorted(v) for k, v in out.items()}
     clips = {}
     for ce in ev.clip_evaluations:
-        clips[str(ce.annotations.clip.uuid)] = {"score": ce.score, "metrics": fm(ce.metrics), "n_matches": len(ce.matches),
+        clips[str(ce.annotations.clip.uuid) + "/" + str(ce.predictions.uuid)] = {"score": ce.score, "metrics": fm(ce.metrics), "n_matches": len(ce.matches),
                                                 "match_scores": sorted((m.score if m.score is not None else -1.0) for m in ce.matches)}
     return {"score": ev.score, "metrics": fm(ev.metrics), "clips": clips}
 
@@ -169,8 +169,8 @@ def judge_result(ctx, spec, ev, idx):
     c04.check_invariants(ctx, ev, f"task:{task}")
     evaluated = {str(E._u("clip", ci)): ci for ci, c in enumerate(spec["clips"]) if c["only"] == "both"}
     got_clips = [str(ce.annotations.clip.uuid) for ce in ev.clip_evaluations]
-    if sorted(got_clips) != sorted(evaluated):
-        ctx.violate("evaluated_clips", f"evaluated_clips:{task}", observed=len(got_clips), expected=len(evaluated), spec=spec)
+    if sorted(got_clips) != sorted(E.expected_clip_ids(spec)):
+        ctx.violate("evaluated_clips", f"evaluated_clips:{task}", observed=len(got_clips), expected=len(E.expected_clip_ids(spec)), spec=spec)
         return False
     ml = task == "clip_multilabel_classification"
     Y, S = [], []
@@ -179,7 +179,7 @@ def judge_result(ctx, spec, ev, idx):
         c = spec["clips"][ci]
         if task in ("clip_classification", "clip_multilabel_classification"):
             y = E.multilabel_truth(vocab, c["ann_tags"]) if ml else E.true_class(vocab, c["ann_tags"])
-            s = E.score_vector(vocab, c["pred_tags"])
+            s = E.score_vector(vocab, E.pred_tags_of(spec, ci, ce))
             Y.append(y); S.append(s)
             judge_metrics(ctx, ce.metrics, y, s, spec, "clip", multilabel=ml)
             if not ml:
@@ -227,7 +227,8 @@ def edited_in_place(ctx, spec):
         return
     spec2 = _copy.deepcopy(spec)
     cps, cas, tags, idx = E.build(spec)
-    by_clip_p = {str(cp.clip.uuid): cp for cp in cps}
+    main_ids = {str(E._u("cp", i)) for i in range(len(spec["clips"]))}
+    by_clip_p = {str(cp.clip.uuid): cp for cp in cps if str(cp.uuid) in main_ids}     # (a clip may carry a second prediction)
     by_clip_a = {str(ca.clip.uuid): ca for ca in cas}
     a, b = both[0], both[-1]
     ua, ub = str(E._u("clip", a)), str(E._u("clip", b))
